@@ -111,11 +111,19 @@ def d1_d3(ctx, rep):
         return
     loop = loops[0]
     lv = loop.target.id
-    ifs = [n for n in ast.walk(loop) if isinstance(n, ast.If) and isinstance(n.test, ast.Compare) and len(n.test.ops) == 1
-           and isinstance(n.test.ops[0], (ast.Lt, ast.LtE, ast.Gt, ast.GtE))]
+    def strip_not(t):
+        neg = False
+        while isinstance(t, ast.UnaryOp) and isinstance(t.op, ast.Not):
+            t, neg = t.operand, not neg
+        return t, neg
+    ifs = [n for n in ast.walk(loop) if isinstance(n, ast.If) and isinstance(strip_not(n.test)[0], ast.Compare) and len(strip_not(n.test)[0].ops) == 1
+           and isinstance(strip_not(n.test)[0].ops[0], (ast.Lt, ast.LtE, ast.Gt, ast.GtE))]
     guard = None
     for i in ifs:
-        l, r, op = i.test.left, i.test.comparators[0], i.test.ops[0]
+        cmp_, neg_ = strip_not(i.test)
+        l, r, op = cmp_.left, cmp_.comparators[0], cmp_.ops[0]
+        if neg_:
+            op = {ast.Lt: ast.GtE, ast.LtE: ast.Gt, ast.Gt: ast.LtE, ast.GtE: ast.Lt}[type(op)]()
         if not (isinstance(l, ast.Name) and isinstance(r, ast.Name)):
             continue
         # which side is the running best: the one assigned inside the body
